@@ -9,7 +9,7 @@ ENGINE = ["src/str/vsnprintf_s.c", "src/str/snprintf_s.c", "src/str/sprintf_s.c"
           "src/str/safe_str_constraint.c", "src/str/strnlen_s.c", "src/ignore_handler_s.c",
           "src/wchar/wcsnlen_s.c", "src/wchar/wcstombs_s.c"]
 STREAM = ["src/io/printf_s.c", "src/io/fprintf_s.c", "src/io/vfprintf_s.c", "src/io/vprintf_s.c"]
-MODELS = ("libc_models.c", "printf_models.c")
+MODELS = ("libc_models.c", "printf_models.c", "conv_models.c")
 
 DIR_RE = re.compile(r"%([-+ #0]*)(\*|\d+)?(?:(\.)(\*|\d+)?)?(hh|h|ll|l|j|z|t|L)?([diuxXocsn%])")
 SL = 4  # max characters of a %s argument
